@@ -4,6 +4,26 @@ import json, os, subprocess
 HERE = os.path.dirname(os.path.dirname(os.path.abspath(__file__)))
 
 CHECKS = {
+ 'C01': dict(
+    category='exploration', design_ref='4/C01, 3.2, 3.3',
+    technique='completion-order controller (DFS over all feasible orders for small n, seeded policies for large n) + schedule fuzzer; boundary oracle on unique tokens + call ledger; SingleLane shadow deque',
+    text='Real fifo_stream / Stream.parmap (thread, process, async-func) executions: every feasible completion order for n<=5 (quick) / n<=6 (thorough) is enumerated by a DFS controller that decides which pending call finishes next; seeded FIFO/LIFO/random/block-reversed orders up to n=300 under sys.monitoring delay injection. Oracle: outputs == [g(x_i)] in order, pairing, exception objects, and exactly one worker call per accepted input. Held-on-observed.',
+    note='Trusted: the controller only completes calls the code has started; process-pool orders are driven by sleep durations (sampled, not enumerated).'),
+ 'C05': dict(
+    category='fault_enumeration', design_ref='4/C05, 3.1, 3.5',
+    technique='fault enumeration (shape x size x stop kind x stop position x failure site/kind/position) with bounded-progress watchdog (bound + stable stacks), reference-prefix oracle, exactly-once failure delivery, thread/process census; schedule fuzzer',
+    text='4 600 enumerated cases (quick; x6 fuzz seeds thorough) over 12 pipeline shapes incl. async twins and adapters, sizes 1-3, break/close/del+gc at 4 positions, failures in source/map/parmap func/preprocessor incl. StopRequested from a real IterableQueue source. Each case must return within the bound, give the reference prefix, raise the first failure exactly once and leave no thread/process.',
+    note='Trusted: hang rule = 10 s bound AND three identical stack samples; census polls 5 s; KeyboardInterrupt/SystemExit excluded as the property says.'),
+ 'C08': dict(
+    category='exploration', design_ref='4/C08',
+    technique='shadow counters (pulled/received/running) under one lock, invariant evaluated at every pull/call-entry event in the causing thread; speed-profile sweep to reach the extreme state; schedule fuzzer on SingleLane',
+    text='fifo_stream, parmap (thread/process/async-func) and buffer driven with slow consumer / slow workers / slow source / bursty profiles, sizes 1-8, finite and unbounded sources; evidence reports per configuration whether the stated bound was attained exactly (it is) and that it was never exceeded. One known finding: async-function parmappers do not limit running calls to `concurrency`.',
+    note='Trusted: the consumer counts an element as received before asking for the next one; process concurrency is computed from child-reported CLOCK_MONOTONIC intervals.'),
+ 'C16': dict(
+    category='exploration', design_ref='4/C16',
+    technique='differential runtime oracle: sync and async implementation driven with identical inputs, failure/rejection plan, flags and per-call duration ranking (completion-order controller in both), outputs compared',
+    text='fifo_stream vs async_fifo_stream for all n! duration rankings (n<=4 quick, n<=5 thorough) x capacity 1-3 x flags x rejection/failure plans, seeded rankings to n=60; Parmapper vs the three async parmappers; Server vs AsyncServer call/stream with preprocessor rejections. Both sides are also compared with the reference meaning.',
+    note='Trusted: exceptions are compared by (type name, args).'),
  'C19': dict(
     category='exploration', design_ref='4/C19, 3.6',
     technique='runtime monitor in virtual time: real EagerBatcher.__iter__ on a scripted queue + virtual clock, oracle over the recorded get/emit timeline',
